@@ -304,6 +304,11 @@ def gen_case(rng, tier='quick', force=None):
                         'const': rng.random() < 0.2,
                         'vals': [[rng.randint(-4, 4) for _ in range(nnz)] for _ in range(nsteps)],
                         'ivals': [[rng.randint(-3, 3) for _ in range(nnz)] for _ in range(nsteps)]}
+                if fmt in ('csr', 'csc'):
+                    # scipy matrices with unsorted indices inside a row / column (any `A @ B` result
+                    # looks like that); decided from the generated values, so that the random
+                    # stream of older cases is unchanged
+                    part['unsorted'] = bool((sum(part['vals'][0]) + nnz + len(comp['parts'])) % 3 == 0)
                 comp['parts'].append(part)
         comps.append(comp)
         for o in comp['outs']:
@@ -594,6 +599,14 @@ def _om():
             co = M.tocoo()
             if co.row.tolist() != list(p['rows']) or co.col.tolist() != list(p['cols']):
                 raise Infra('scipy %s entry order differs from the generated pattern' % f)
+            if p.get('unsorted'):
+                # the same matrix, stored with the entries of every row (column) in reverse order
+                M = M.copy()
+                for r in range(len(M.indptr) - 1):
+                    a, b = M.indptr[r], M.indptr[r + 1]
+                    M.indices[a:b] = M.indices[a:b][::-1].copy()
+                    M.data[a:b] = M.data[a:b][::-1].copy()
+                M.has_sorted_indices = False
             return M
 
         def _set_partials(self, partials):
@@ -1192,6 +1205,8 @@ class C11(Property):
             b.append('has_dr_di')
         for f in sorted({p['fmt'] for c in case['comps'] for p in c['parts']}):
             b.append('fmt=' + f)
+        if any(p.get('unsorted') and len(p['rows']) > 1 for c in case['comps'] for p in c['parts']):
+            b.append('scipy_matrix_with_unsorted_indices')
         for c in case['comps']:
             b.append('comp=' + c['kind'])
             per_src = {}
